@@ -307,7 +307,7 @@ func (fs *FS) Rename(oldname, newname string) error {
 		if err != nil {
 			_ = txn.Abort()
 		} else {
-			_, err = txn.Commit(context.Background())
+			err = commitTxn(txn)
 		}
 		return err
 	}
